@@ -103,3 +103,202 @@ def run(check):
         check.sample({"request": rreq[5], "model": mans[5], "impl": rans[5]})
     check.exhaustive = True
     check.extra["exhaustive_scope"] = "digraphs with <= %d nodes; permutations of <= %d elements" % (nmax, 6 if check.thorough else 5)
+
+
+# ----------------------------------------------------------------------------- definition order end to end (L2)
+
+import re
+from syn_gen import *
+import l2
+from gen import Gen
+
+POSITIONS = ["field", "vec", "option", "hashmap-value", "array", "slice", "generic-arg", "nested-generic", "box",
+             "tuple-variant", "struct-variant-field", "alias-target", "alias-vec"]
+# positions `get_dependencies` does not look into (open known finding `uncovered-reference-positions`)
+UNCOVERED = {"array", "slice", "nested-generic", "struct-variant-field"}
+ORDER_LANGS = ["typescript", "python", "kotlin", "swift", "go"]
+
+
+def ref_type(pos, target):
+    t = t_path(target)
+    if pos in ("field", "tuple-variant", "struct-variant-field", "alias-target"):
+        return t
+    if pos in ("vec", "alias-vec"):
+        return t_path("Vec", [t])
+    if pos == "option":
+        return t_path("Option", [t])
+    if pos == "hashmap-value":
+        return t_path("HashMap", [t_path("String"), t])
+    if pos == "array":
+        return ("array", t, 2)
+    if pos == "slice":
+        return ("ref", ("slice", t), False)
+    if pos == "generic-arg":
+        return t_path("Wrap", [t])
+    if pos == "nested-generic":
+        return t_path("Wrap", [t_path("Vec", [t])])
+    if pos == "box":
+        return t_path("Box", [t])
+    raise ValueError(pos)
+
+
+def build_program(rng, n, edges, renamed=()):
+    """n items T0..T{n-1}; edges: (i, j, position) = Ti refers to Tj at that position; plus a generic `Wrap<T>`"""
+    names = ["T%d" % i for i in range(n)]
+    kinds = []
+    for i in range(n):
+        mine = [e for e in edges if e[0] == i]
+        if any(p in ("tuple-variant", "struct-variant-field") for _, _, p in mine):
+            kinds.append("enum")
+        elif mine and all(p in ("alias-target", "alias-vec") for _, _, p in mine):
+            kinds.append("alias")
+        else:
+            kinds.append("struct")
+    items = []
+    ts = [m_path("typeshare")]
+    for i in range(n):
+        mine = [e for e in edges if e[0] == i]
+        attrs = list(ts)
+        if i in renamed:
+            attrs.append(m_list("serde", [m_nv("rename", lit_s("R%d" % i))]))
+        if kinds[i] == "alias":
+            for extra in mine[1:]:
+                edges.remove(extra)          # an alias has one target: drop the other drawn edges
+            _, j, p = mine[0]
+            items.append({"kind": "alias", "attrs": attrs, "ident": names[i], "generics": [], "ty": ref_type(p, names[j])})
+        elif kinds[i] == "enum":
+            variants = []
+            for k, (_, j, p) in enumerate(mine):
+                if p == "struct-variant-field":
+                    variants.append({"attrs": [], "ident": "V%d" % k, "fields": ("named", [field([], "x", ref_type(p, names[j]))])})
+                else:
+                    variants.append({"attrs": [], "ident": "V%d" % k, "fields": ("unnamed", [field([], None, ref_type(p if p == "tuple-variant" else p, names[j]))])})
+            variants.append({"attrs": [], "ident": "Unit", "fields": ("unit",)})
+            attrs.append(m_list("serde", [m_nv("tag", lit_s("t")), m_nv("content", lit_s("c"))]))
+            items.append({"kind": "enum", "attrs": attrs, "ident": names[i], "generics": [], "variants": variants})
+        else:
+            fs = [field([], "f%d" % k, ref_type(p, names[j])) for k, (_, j, p) in enumerate(mine)]
+            fs.append(field([], "plain", t_path("u8")))
+            items.append({"kind": "struct", "attrs": attrs, "ident": names[i], "generics": [], "fields": ("named", fs)})
+    items.append({"kind": "struct", "attrs": list(ts), "ident": "Wrap", "generics": [("ty", "T")],
+                  "fields": ("named", [field([], "inner", t_path("T"))])})
+    rng.shuffle(items)
+    return {"attrs": [], "items": items, "kinds": kinds}, names
+
+
+DEF_RX = {
+    "typescript": r"^export (?:interface|type|enum) (\w+)",
+    "python": r"^(?:class (\w+)\(|(\w+) = )",
+    "kotlin": r"^(?:data class|sealed class|enum class|typealias|object|value class) (\w+)",
+    "swift": r"^public (?:struct|enum|indirect enum|typealias) (\w+)",
+    "go": r"^type (\w+) ",
+}
+
+
+def definition_order(lang, text):
+    out = []
+    for m in re.finditer(DEF_RX[lang], text, re.M):
+        name = next(g for g in m.groups() if g)
+        if name not in out:
+            out.append(name)
+    return out
+
+
+def acyclic_edges(n, edges):
+    g = [[] for _ in range(n)]
+    for i, j, _ in edges:
+        g[i].append(j)
+    return acyclic(g)
+
+
+def order_part(check):
+    rng = check.rng
+    ncases = 400 if check.thorough else 80
+    mreqs, rreqs, meta = [], [], []
+    for c in range(ncases):
+        n = rng.randint(2, 6 if not check.thorough else 10)
+        dag = rng.random() < 0.75
+        order = list(range(n))
+        rng.shuffle(order)
+        rank = {v: k for k, v in enumerate(order)}
+        edges = []
+        for i in range(n):
+            for j in range(n):
+                if rng.random() < 0.3 and (not dag or rank[j] < rank[i]) and (i != j or not dag):
+                    edges.append((i, j, rng.choice(POSITIONS)))
+        renamed = [i for i in range(n) if rng.random() < 0.1]
+        f, names = build_program(rng, n, edges, renamed)
+        g = Gen(rng)
+        for lang in ORDER_LANGS:
+            cfg = {"package": "proto" if lang == "go" else "com.example", "type_mappings": {}}
+            mreq, rreq, texts = l2.requests(lang, cfg, [{"crate": "", "file_name": "o", "path": "src/lib.rs", "file": f}], g)
+            mreqs.append(mreq)
+            rreqs.append(rreq)
+            meta.append((lang, n, edges, renamed, texts[0], l2.names_of(f), f["kinds"]))
+    allnames = set().union(*[m[5] for m in meta])
+    mans = [l2.norm(a) for a in model(mreqs, names=allnames)]
+    rans = [l2.norm(a) for a in runner(rreqs)]
+    for (lang, n, edges, renamed, text, _, kinds), ma, ra, rq in zip(meta, mans, rans, rreqs):
+        check.saw(("order", lang, text), nontrivial=bool(edges))
+        check.count("order-%s-%s" % (lang, "dag" if acyclic_edges(n, edges) else "cyclic"))
+        if "ok" in ra:
+            out = ra["ok"][""]
+            order = definition_order(lang, out)
+            pos = {nm: k for k, nm in enumerate(order)}
+
+            def defname(i):
+                # the name the item is defined under in this language (C09 matters aside: accept either)
+                for cand in ("R%d" % i, "T%d" % i):
+                    if cand in pos:
+                        return cand
+                return None
+            problem = None
+            missing = [i for i in range(n) if defname(i) is None]
+            if missing:
+                problem = ("definition missing", missing)
+            elif acyclic_edges(n, edges):
+                bad = [(i, j, p) for i, j, p in edges if pos[defname(j)] > pos[defname(i)]]
+                if bad:
+                    # an algebraic enum lists *itself* as its first dependency, so the DFS cuts its adjacency list
+                    # short as a "cycle": its references never order the output
+                    enum_edges = [e for e in bad if kinds[e[0]] == "enum"]
+                    if enum_edges and check.known("algebraic-enum-self-dependency", {"lang": lang, "source": text, "misordered": enum_edges}):
+                        bad = [e for e in bad if kinds[e[0]] != "enum"]
+                    # a known finding only if every mis-ordered edge is in an uncovered position or targets a renamed type
+                    if bad and all(p in UNCOVERED or j in renamed or i in renamed for i, j, p in bad):
+                        if check.known("uncovered-reference-positions", {"lang": lang, "source": text, "misordered": bad}):
+                            bad = []
+                    if bad:
+                        problem = ("a definition precedes one it refers to", bad)
+            if problem:
+                check.violation("%s definition order: %s %s" % (lang, problem[0], problem[1]),
+                                case={"lang": lang, "source": text, "edges": edges}, impl=out, model=ma.get("ok"), failing_input=True)
+                return
+        if ma != ra:
+            check.violation("%s generation differs from the model on a reference-graph program: %s" % (
+                lang, l2.text_diff(ma["ok"][""], ra["ok"][""]) if "ok" in ma and "ok" in ra else (ma, ra)),
+                case={"lang": lang, "source": text, "request": rq}, impl=ra, model=ma, failing_input=False,
+                broken="correspondence L2 topsort/get_dependencies (theorems TsV.C11.*)")
+            return
+    # stored witness of the open finding
+    wf, _ = build_program(random.Random(1), 2, [(0, 1, "array")])
+    # put T0 (the user) after T1 in source order reversed so that only sorting could fix it
+    a = runner([l2.requests("python", {"type_mappings": {}}, [{"crate": "", "file_name": "o", "path": "w.rs", "file": wf}], Gen(rng))[1]])[0]
+    if "ok" in a:
+        o = definition_order("python", a["ok"][""])
+        if "T0" in o and "T1" in o and o.index("T0") < o.index("T1"):
+            check.known("uncovered-reference-positions", {"lang": "python", "witness": "struct T0 { f0: [T1; 2] } is emitted before T1"})
+
+
+_run_graphs = run
+
+
+def run(check):
+    _run_graphs(check)
+    if not check.violations:
+        order_part(check)
+    check.rule += ("; end to end: programs of 2-6 (thorough 10) items whose reference graph (DAGs and cyclic) is placed at 13 kinds of "
+                   "positions (field, Vec, Option, HashMap value, array, slice, generic argument, nested generic argument, Box, tuple "
+                   "variant, struct-variant field, alias target), random source order, optional serde renames, through "
+                   "parse->reconcile->generate for TS/Python/Kotlin/Swift/Go: definition order extracted from the real output must "
+                   "be a permutation and, for DAGs, topological; byte-exact against the model")
